@@ -30,6 +30,10 @@ func checkC10(c *Ctx) {
 	r.Min("C10.own-token", 1)
 	r.Min("C10.fee-order", 2)
 	r.Min("C10.counters", 4)
+	// the batch-nonce counter survives a restart: the genesis clauses that restore it (C15)
+	c.includeKeys("counters", "C15", rulesIn("C15.faithful-import", "C15.field-roundtrip", "C15.prefix-export"), func(rule, key string) bool {
+		return strings.Contains(key, "LastOutgoingBatchNonceKey") || strings.Contains(key, "LastOutgoingBatchTxNonce")
+	})
 
 	// batch-build functions: contain a BatchTx literal and delete pool entries
 	var builds []*ssa.Function
